@@ -98,16 +98,16 @@ func chunksOf(stream []byte, msgs [][]byte, cuts []int) [][]byte {
 // c04Body runs one inbound scenario and fills obs.
 func c04Inbound(c c04Case, obs *c04Obs) {
 	*obs = c04Obs{seen: map[int][][]byte{}}
-	inCB := 0
+	inCB := map[int]int{} // per connection: callbacks of one connection must never overlap (two connections may)
 	record := func(idx int) simplefixgo.IncomingHandlerFunc {
 		return func(m []byte) bool {
-			inCB++
-			if inCB > 1 {
+			inCB[idx]++
+			if inCB[idx] > 1 {
 				obs.overlap = true
 			}
 			obs.seen[idx] = append(obs.seen[idx], append([]byte{}, m...))
 			vsched.Preempt() // an arbitrary delay inside the callback: a second callback could start here if it were possible
-			inCB--
+			inCB[idx]--
 			return true
 		}
 	}
